@@ -64,5 +64,11 @@ CLAIMED["C07"] = dict(
     note="Trusted: _pickle.Unpickler dispatches global lookups to the overridden find_class (documented API); torch/serialization.py parsed from the installed package when present.",
 )
 
+CLAIMED["C01"] = dict(
+    technique="who-may-call reachability over a class-hierarchy call graph (over-approximating) from every analysis entry point, with a frozen effect table classifying each reachable external callable / builtin / attribute read / dynamic dispatch",
+    level="Decides the whole property as an absence-of-effects claim: from parse, stacked parse, decompile, unparse, trace, safety check, likely-safe query and the CLI's decompile/trace/check-safety arms no code path reaches an operation that imports, resolves, calls, spawns, connects or writes (two named exemptions: the JSON report the caller asked for and read-only opening of the input itself). Over-approximation is the sound direction; an external callable missing from both tables ends ANALYSIS-ERROR, never a pass.",
+    note="Trusted base: the effect table in sa/effects.py (114 distinct external callables reachable on this tree, each read and classified) and the CHA resolution in sa/callgraph.py; C extension behaviour of the audited-inert callables (pickletools.genops tokenises only; stdlib_list.in_stdlib reads a packaged list).",
+)
+
 _NOT_YET = "checker not built yet in this session (planned per DESIGN.md section 3); nothing is claimed until it exists"
 NOT_APPLICABLE = {p: _NOT_YET for p in [f"C{i:02d}" for i in range(1, 20)]}
